@@ -89,11 +89,12 @@ type Ctx struct {
 	retState  *State
 	entryEnv  *SpecEnv
 	axiomsUsed []string
+	frontier   map[string]string // heap version -> allocation frontier when it was created
 }
 
 func NewCtx(w *World, fn *ssa.Function, mode Mode) *Ctx {
 	return &Ctx{W: w, Fn: fn, Mode: mode, declared: map[string]bool{}, heapSort: map[string]string{}, heap0: map[string]string{},
-		litStr: map[string]string{}, typeIDs: map[string]int{}, oblNames: map[string]int{}, usedContracts: map[string]bool{}, usedUF: map[string]bool{}}
+		litStr: map[string]string{}, typeIDs: map[string]int{}, oblNames: map[string]int{}, usedContracts: map[string]bool{}, usedUF: map[string]bool{}, frontier: map[string]string{}}
 }
 
 func (c *Ctx) fresh(prefix string) string {
@@ -659,7 +660,9 @@ func (c *Ctx) prelude() string {
 	if c.Mode == ModeInt {
 		sb.WriteString("(declare-fun slen (Str) Int)\n(declare-fun sat (Str Int) Int)\n(declare-fun ssub (Str Int Int) Str)\n(declare-fun scat (Str Str) Str)\n")
 		sb.WriteString("(declare-fun kind (Int) Int)\n")
+		sb.WriteString("(declare-fun ix (Int Int) Int)\n(assert (forall ((a Int) (b Int)) (! (= (ix a b) (+ a b)) :pattern ((ix a b)))))\n")
 	} else {
+		sb.WriteString("(declare-fun ix ((_ BitVec 64) (_ BitVec 64)) (_ BitVec 64))\n(assert (forall ((a (_ BitVec 64)) (b (_ BitVec 64))) (! (= (ix a b) (bvadd a b)) :pattern ((ix a b)))))\n")
 		sb.WriteString("(declare-fun slen (Str) (_ BitVec 64))\n(declare-fun sat (Str (_ BitVec 64)) (_ BitVec 8))\n")
 		sb.WriteString("(declare-fun kind (Int) Int)\n")
 	}
